@@ -205,6 +205,9 @@ class ExecFull(ExecPlaces):
             fr.yielded = fresh("_yielded", fr.yielded.ty)  # the loop yields: what has been yielded so far is loop state
             fr.env["_yielded"] = fr.yielded
         roots = _mutated_roots(body) | set((spec or {}).get("modifies", []))
+        c = fr.contract
+        if c is not None and getattr(c, "interference", None) and any(isinstance(x, (ast.Yield, ast.YieldFrom)) for st in body for x in ast.walk(st)):
+            roots |= set(c.interference.get("modifies", []))  # a loop that yields: other code ran in earlier iterations
         callees_mod = self.w.callee_modifies(body, fr, self)
         roots |= callees_mod
         for r in sorted(roots):
@@ -543,11 +546,47 @@ class ExecFull(ExecPlaces):
             if c is not None and c.at_yield:
                 for i, cl in enumerate(c.at_yield):
                     self.oblige("at-yield", self.eval_clause(cl, fr), node, tag=f".{i}")
+            self.interfere(fr)
         else:
+            c = fr.contract
+            if c is not None and getattr(c, "interference", None):
+                live = self.eval(node.value, fr)
+                if isinstance(live, Ref) and isinstance(self.p.cell(live), ListCell):
+                    return self.yield_from_live(node, fr)
             v = self.eval(node.value, fr)
             got = self.iter_to_list(v, node, fr)
             fr.yielded = seq_concat(fr.yielded, self.to_sv(got, fr.yielded.ty))
             fr.env["_yielded"] = fr.yielded
+
+    def interfere(self, fr):
+        """the generator is suspended: other code runs.  Under an interference contract the places it may change
+        are havocked and only the rely clauses are known afterwards"""
+        c = fr.contract
+        spec = getattr(c, "interference", None) if c is not None else None
+        if not spec:
+            return
+        for nm, text in spec.get("lets", {}).items():
+            fr.env[nm] = self.eval_value_clause(text, fr)
+        self.apply_modifies(c, spec.get("modifies", []), fr)
+        for cl in spec.get("rely", []):
+            self.p.assume(self.eval_clause(cl, fr))
+
+    def yield_from_live(self, node, fr):
+        """`yield from <list>` under interference: CPython's list iterator reads the live list by index, so the
+        statement is the loop  L = <expr>; _j = 0; while _j < len(L): yield L[_j]; _j += 1  (loop contract key yieldfrom#k)"""
+        cache = self.w.__dict__.setdefault("_synth_yield_from", {})
+        if id(node) not in cache:
+            src = ast.unparse(node.value)
+            # the iterated object is evaluated once (a name or attribute aliases the live list, a slice or call is a private copy)
+            tree = ast.parse(f"_yf = {src}\n_j = 0\nwhile _j < len(_yf):\n    yield _yf[_j]\n    _j += 1\n")
+            for n in ast.walk(tree):
+                if hasattr(n, "lineno"):
+                    n.lineno = n.end_lineno = node.lineno
+            k = f"yieldfrom#{self.w.__dict__.setdefault('_synth_count', {}).setdefault(fr.fn_name, 0)}"
+            self.w._synth_count[fr.fn_name] += 1
+            self.w.loop_index[id(tree.body[2])] = k
+            cache[id(node)] = (tree, node)  # keep the node alive: ids are reused after collection
+        self.exec_block(cache[id(node)][0].body, fr)
 
     # ------------------------------------------------------------------ closures & spec functions
     def bind_args(self, fnode, args, kwargs, env, fr_globals):
